@@ -189,9 +189,8 @@ def lazy_rules(ctx, classes, pid, min_entries, min_guards):
                           f"{name}() resets part of a cache group, leaving {', '.join('self.' + x for x in missing)} built",
                           "resetting one member of a group of caches that are built together leaves the others stale",
                           note=f"{qual}.{name} resets whole groups")
-        # L6: two builders of one rotationally sorted table must agree on sorting it (vertex rings are only sorted for surface meshes)
-        if pid == "C01":
-            _l6_sorted_builders(ctx, pid, lc, qual)
+        # L6: two builders of one rotationally sorted table must agree on sorting it (each property looks at the tables its own code sorts)
+        _l6_sorted_builders(ctx, pid, lc, qual)
         # L7: clear() restores every piece of state that __init__ establishes and the queries modify
         _l7_state_reset(ctx, pid, lc, qual)
     ctx.require_count(f"{pid}-L1 entry points", n_entries, min_entries)
@@ -232,13 +231,15 @@ def _callees(lc, entry, body):
     return out
 
 
-def _closure(lc, entry, body=None, depth=6):
-    """methods (entries) transitively called through self / super calls from `body` (default: the body of entry)"""
+def _closure(lc, entry, body=None, depth=6, private_only=False):
+    """methods (entries) transitively called through self / super calls from `body` (default: the body of entry).
+    private_only: public accessors are not entered (what a builder is made of is its private helpers; a query it issues on the way is
+    answered by tables that are already built)"""
     seen, out = set(), []
     todo = [(t, 0) for t in _callees(lc, entry, body if body is not None else entry[1].body)]
     while todo:
         t, d = todo.pop()
-        if id(t[1]) in seen or d > depth:
+        if id(t[1]) in seen or d > depth or (private_only and not t[1].name.startswith("_")):
             continue
         seen.add(id(t[1]))
         out.append(t)
@@ -311,15 +312,19 @@ def _l7_state_reset(ctx, pid, lc, qual):
 SORTER = "_sort_vertex_neighborhoods"
 
 
+SORTED_TABLES = {"C01": ("_adjV2Cn", "_adjV2V"), "C03": ("_adjE2C", "_adjE2F")}     # tables a property's own code puts in rotational order
+
+
 def _l6_sorted_builders(ctx, pid, lc, qual):
-    cand = [SORTER] if SORTER in lc.methods else [n for n, (m_, f_, o_) in lc.methods.items() if n.startswith("_")
-                                                  and any(au.call_tail(c) in ("sort", "sorted") for c in au.calls(f_))
-                                                  and any(au.is_self_attr(n_, "_adjV2Cn") for n_ in au.walk(f_))]
+    tables = SORTED_TABLES.get(pid, ())
+    cand = [n for n, (m_, f_, o_) in lc.methods.items() if n.startswith("_") and not n.startswith("__")
+            and any(au.call_tail(c) in ("sort", "sorted") for c in au.calls(f_))
+            and any(au.is_self_attr(n_, t) for n_ in au.walk(f_) for t in tables)]
     if len(cand) != 1:
         return
     sm, sfn, so = lc.methods[cand[0]]
     sxm = q.summarise(ctx.repo, lc.mod.name, lc.qual, sfn)
-    sorted_fields = {q.field(b.value) for e, b in q.method_calls(sxm, ("sort",)) if isinstance(b, ast.Subscript) and q.field(b.value)}
+    sorted_fields = {q.field(b.value) for e, b in q.method_calls(sxm, ("sort",)) if isinstance(b, ast.Subscript) and q.field(b.value)} & set(tables)
     # builders called straight from a cold path `if self.<lazy field> is None: self.B()`
     direct = {}
     for m, fn, c in lc.all_defs:
@@ -330,7 +335,7 @@ def _l6_sorted_builders(ctx, pid, lc, qual):
                     direct[id(t[1])] = t
     info = []
     for t in direct.values():
-        reach = [t] + _closure(lc, t)
+        reach = [t] + _closure(lc, t, private_only=True)
         writes = set()
         for r in reach:
             writes |= lc.direct_writes(r[1])
@@ -1107,9 +1112,17 @@ def d2_derived_accessors(ctx):
             return q.same(elt.args[0], elem)
         return isinstance(elt, ast.Call) and isinstance(elt.func, ast.Attribute) and elt.func.attr == "adj" and len(elt.args) == 1 \
             and q.is_attr_chain(elt.func.value, "self", "mesh", "face_corners") and q.same(elt.args[0], elem)
+    OTHER_RINGS = {"vertex_to_edges": {"vertex_to_corners": "corner", "vertex_to_faces": "face"}}
+    seen_defs = set()
+    # vertex_to_edges is judged as each concrete class answers it (an override in the surface connectivity is the answer for surfaces)
     for modname, cls, name, source, image in [(LIN, "PolyLine._Connectivity", "vertex_to_edges", "vertex_to_vertices", edge_of),
+                                             (SURF, CONN, "vertex_to_edges", "vertex_to_vertices", edge_of),
                                              (SURF, CONN, "vertex_to_faces", "vertex_to_corners", face_of)]:
         fn, x = _accessor(ctx, modname, cls, name)
+        if (id(fn), name) in seen_defs:
+            continue
+        seen_defs.add((id(fn), name))
+        modname = next((m.name for m in ctx.repo.modules.values() if any(f is fn for f in m.funcs.values())), modname)
         site = ctx.site(modname, fn)
         V = au.params(fn, skip_self=True)[0]
         t = x.ret
@@ -1131,7 +1144,15 @@ def d2_derived_accessors(ctx):
         src_ok = len(frames) == 1 and frames[0].kind == "seq" and isinstance(frames[0].dom, ast.Call) and q.field(frames[0].dom.func) == source \
             and len(frames[0].dom.args) == 1 and q.same(frames[0].dom.args[0], sx.N(V))
         if not src_ok:
-            ctx.undecided("C01-D2", site, f"{name} does not run over {source}(V)", "")
+            other = None
+            if len(frames) == 1 and frames[0].kind == "seq" and isinstance(frames[0].dom, ast.Call) and len(frames[0].dom.args) == 1 \
+                    and q.same(frames[0].dom.args[0], sx.N(V)):
+                other = OTHER_RINGS.get(name, {}).get(q.field(frames[0].dom.func))
+            if other and not conds:
+                ctx.fail("C01-D2", site, f"{name} lists one element per {other} of the vertex instead of one per neighbour vertex",
+                         f"a border vertex has one more incident edge than {other}s: the ring is one element short there and no longer aligned with {source}(V)")
+            else:
+                ctx.undecided("C01-D2", site, f"{name} does not run over {source}(V)", "")
             continue
         elem = ast.Subscript(value=frames[0].dom, slice=sx.N(frames[0].var), ctx=ast.Load())
         if conds:
